@@ -19,6 +19,7 @@ func (m *MacState) Sum(b []byte) []byte {
 	// every MAC output is, by definition, in the image of the MAC under this key; harnesses state
 	// unforgeability as "a forged value is not in the image" (MacImage)
 	Assume(UFBool("hmac_image", m.Key, out))
+	Assume(out != "") // 32 bytes
 	return []byte(out)
 }
 
